@@ -9,10 +9,15 @@
                                 its terminal event; EOF, a broken stream and the count check all
                                 end the stream the same way for the merge, see mergedDocStream.readA)
      storeapi/grpc_search.go    earlierThanOldestFrac (the hot store's refusal predicate)
+     seq/qpr.go                 MergeQPRs beyond IDs: Total with the duplicate repair, histogram buckets,
+                                AggregatableSamples.Merge / SamplesContainer.Merge, Errors (store soft errors)
+     proxyapi/grpc_v1.go, grpc_search.go, grpc_complex_search.go   doSearch / processSearchErrors /
+                                parseProxyError / shouldHaveResponse: search outcome -> API answer
+     proxy/search/ingestor.go   Documents / expandIDsBySources; docs_iterator.go uniqueIDIterator
    sort.Sort is an external library: it enters as a Section variable (any function that returns a
    sorted permutation); the executable instance used by the correspondence run is [isort].
    No proofs in this file. *)
-From Coq Require Export List Bool Arith NArith.
+From Coq Require Export List Bool Arith NArith ZArith.
 Export ListNotations.
 
 (* ------------------------------------------------------------------ identifiers *)
@@ -27,10 +32,22 @@ Definition id_ltb (a b : id) : bool :=
 (* IDSource.Equal / the map key {ID, Source} *)
 Definition key_eqb (a b : ids) : bool := id_eqb (fst a) (fst b) && Nat.eqb (snd a) (snd b).
 
+(* ------------------------------------------------------------------ the rest of a store answer *)
+(* uint64 arithmetic of Total and of the histogram counters (the duplicate repair decrements) *)
+Definition wrap64 (z : Z) : Z := (z mod 18446744073709551616)%Z.
+
+Definition bin := (N * N)%type.               (* seq.AggBin: MID, Token (tokens numbered by the harness) *)
+(* seq.SamplesContainer; values are integers (exact in float64) *)
+Record sc := mkSc { sc_total : Z; sc_sum : Z; sc_min : Z; sc_max : Z; sc_ne : Z; sc_samples : list Z }.
+Definition agg := (list (bin * sc) * Z)%type. (* AggregatableSamples: SamplesByBin (distinct keys), NotExists *)
+(* what a store answers besides IDs: Total, Histogram, Aggs, number of soft errors (resp.Errors) *)
+Record extra := mkX { x_total : Z; x_hist : list (N * Z); x_aggs : list agg; x_errs : nat }.
+Definition X0 : extra := mkX 0 [] [] 0.
+
 (* ------------------------------------------------------------------ search: one shard *)
 (* what one replica does with a Search call *)
 Inductive beh :=
-| BOk (l : list id)      (* answers with these IDs (Code = NO_ERROR) *)
+| BOk (l : list id) (x : extra)   (* answers with these IDs (Code = NO_ERROR) and the rest *)
 | BErr                   (* transport / internal error *)
 | BWantsOld              (* hot store: range older than retention (code or legacy message) *)
 | BTooManyFrac           (* Code = TOO_MANY_FRACTIONS_HIT *)
@@ -38,7 +55,7 @@ Inductive beh :=
 
 Definition shard := list (src * beh).          (* replicas in the order they are tried *)
 
-Inductive shard_res := SAns (s : src) (l : list id) | SWantsOld | STooManyFrac | SFail.
+Inductive shard_res := SAns (s : src) (l : list id) (x : extra) | SWantsOld | STooManyFrac | SFail.
 
 (* searchShard with ShuffleReplicas = false *)
 Fixpoint search_shard (sh : shard) : shard_res :=
@@ -46,7 +63,7 @@ Fixpoint search_shard (sh : shard) : shard_res :=
   | [] => SFail
   | (s, b) :: r =>
       match b with
-      | BOk l => SAns s l
+      | BOk l x => SAns s l x
       | BErr => search_shard r
       | BWantsOld => SWantsOld
       | BTooManyFrac => STooManyFrac
@@ -56,14 +73,16 @@ Fixpoint search_shard (sh : shard) : shard_res :=
 
 (* ------------------------------------------------------------------ search: one tier *)
 Inductive tier_res :=
-| TOk (partial : bool) (qs : list (src * list id))
+| TOk (partial : bool) (qs : list (src * list id)) (xs : list extra)   (* xs: the rest of the same answers *)
 | TWantsOld | TTooManyFrac | TFail.
 
 Definition is_wo (r : shard_res) := match r with SWantsOld => true | _ => false end.
 Definition is_tmf (r : shard_res) := match r with STooManyFrac => true | _ => false end.
 Definition is_fail (r : shard_res) := match r with SFail => true | _ => false end.
 Definition answers (rs : list shard_res) : list (src * list id) :=
-  flat_map (fun r => match r with SAns s l => [(s, l)] | _ => [] end) rs.
+  flat_map (fun r => match r with SAns s l _ => [(s, l)] | _ => [] end) rs.
+Definition extras (rs : list shard_res) : list extra :=
+  flat_map (fun r => match r with SAns _ _ x => [x] | _ => [] end) rs.
 
 (* searchStores. Shard answers arrive in scheduler order; the first special answer seen wins,
    so when one shard says wants-old and another too-many-fractions either may be returned:
@@ -78,8 +97,8 @@ Definition search_stores (prio : bool) (shards : list shard) : tier_res :=
   else
     let qs := answers rs in
     if existsb is_fail rs then
-      match qs with [] => TFail | _ => TOk true qs end
-    else TOk false qs.
+      match qs with [] => TFail | _ => TOk true qs (extras rs) end
+    else TOk false qs (extras rs).
 
 (* ------------------------------------------------------------------ merge of the answers *)
 (* a comes before b in the response: descending by default, ascending when reversed *)
@@ -100,8 +119,70 @@ Definition dedup (l : list ids) : list ids :=
 (* paginateIDs *)
 Definition paginate (l : list ids) (off size : nat) : list ids := firstn size (skipn off l).
 
+(* the duplicates removeRepetitionsAdvanced drops (each triggers one repair) *)
+Fixpoint dups_from (last : ids) (l : list ids) : list ids :=
+  match l with
+  | [] => []
+  | y :: r => if id_eqb (fst last) (fst y) then y :: dups_from last r else dups_from y r
+  end.
+Definition dups (l : list ids) : list ids :=
+  match l with [] => [] | x :: r => dups_from x r end.
+
+(* histogram: map[MID]uint64 as an association list *)
+Fixpoint hlookup (h : list (N * Z)) (k : N) : Z :=
+  match h with
+  | [] => 0%Z
+  | (k', c) :: r => if N.eqb k' k then c else hlookup r k
+  end.
+Fixpoint hupd (h : list (N * Z)) (k : N) (f : Z -> Z) : list (N * Z) :=
+  match h with
+  | [] => [(k, f 0%Z)]
+  | (k', c) :: r => if N.eqb k' k then (k', f c) :: r else (k', c) :: hupd r k f
+  end.
+(* dst.Histogram[time] += count *)
+Definition hist_add (dst src : list (N * Z)) : list (N * Z) :=
+  fold_left (fun d kc => hupd d (fst kc) (fun c => wrap64 (c + snd kc))) src dst.
+(* removeHistogramRepetition: histogram[mid - mid % interval]-- for every dropped duplicate *)
+Definition bucket_of (itv : N) (i : id) : N := (fst i - fst i mod itv)%N.
+Definition hist_repair (itv : N) (reps : list ids) (h : list (N * Z)) : list (N * Z) :=
+  if N.eqb itv 0 then h
+  else fold_left (fun d k => hupd d (bucket_of itv (fst k)) (fun c => wrap64 (c - 1))) reps h.
+
+(* SamplesContainer: NewSamplesContainers and Merge (the reservoir replacement above 8096 samples
+   is not modelled: the harness stays below) *)
+Definition new_sc : sc := mkSc 0 0 9223372036854775808 (-9223372036854775808) 0 [].  (* float64(math.MaxInt64) = 2^63 *)
+Definition sc_merge (h x : sc) : sc :=
+  let ne := (sc_ne h + sc_ne x)%Z in
+  if Z.eqb (sc_total x) 0 then mkSc (sc_total h) (sc_sum h) (sc_min h) (sc_max h) ne (sc_samples h)
+  else mkSc (sc_total h + sc_total x) (sc_sum h + sc_sum x)
+            (if Z.eqb (sc_total h) 0 then sc_min x else Z.min (sc_min h) (sc_min x))
+            (if Z.eqb (sc_total h) 0 then sc_max x else Z.max (sc_max h) (sc_max x))
+            ne (sc_samples h ++ sc_samples x).
+Definition bin_eqb (a b : bin) : bool := N.eqb (fst a) (fst b) && N.eqb (snd a) (snd b).
+Fixpoint blookup (q : list (bin * sc)) (b : bin) : option sc :=
+  match q with
+  | [] => None
+  | (b', h) :: r => if bin_eqb b' b then Some h else blookup r b
+  end.
+Fixpoint bupd (q : list (bin * sc)) (b : bin) (x : sc) : list (bin * sc) :=
+  match q with
+  | [] => [(b, sc_merge new_sc x)]
+  | (b', h) :: r => if bin_eqb b' b then (b', sc_merge h x) :: r else (b', h) :: bupd r b x
+  end.
+(* AggregatableSamples.Merge *)
+Definition agg_merge (q a : agg) : agg :=
+  (fold_left (fun q' bh => bupd q' (fst bh) (snd bh)) (fst a) (fst q), (snd q + snd a)%Z).
+(* dst.Aggs[i].Merge(qpr.Aggs[i]) for i < len(qpr.Aggs); dst.Aggs has len(sr.AggQ) entries (a store
+   answering with more aggregations than requested makes the real code index out of range: not generated) *)
+Fixpoint aggs_merge (dst a : list agg) : list agg :=
+  match dst, a with
+  | d :: ds, x :: xs => agg_merge d x :: aggs_merge ds xs
+  | ds, [] => ds
+  | [], _ :: _ => []
+  end.
+
 Inductive errk := EWantsOld | ETooManyFrac | EOther | EFetch.
-Inductive sres := SErr (k : errk) | SOk (partial : bool) (l : list ids).
+Inductive sres := SErr (k : errk) | SOk (partial : bool) (l : list ids) (r : extra).
 
 Section WithSort.
   (* sort.Sort(dst.IDs) / sort.Sort(sort.Reverse(dst.IDs)), given its Less *)
@@ -111,36 +192,70 @@ Section WithSort.
   Definition merge_qprs (qs : list (src * list id)) (limit : nat) (rev : bool) : list ids :=
     firstn limit (dedup (sort (lessf rev) (flat_map tag qs))).
 
-  Definition finish (t : tier_res) (off size : nat) (rev : bool) : sres :=
+  (* seq.MergeQPRs, everything else: [xs] in arrival order; itv = histInterval (0 = none),
+     naggs = len(sr.AggQ) *)
+  Definition merge_rest (qs : list (src * list id)) (xs : list extra) (rev : bool) (itv : N) (naggs : nat) : extra :=
+    let reps := dups (sort (lessf rev) (flat_map tag qs)) in
+    let T := fold_left (fun t x => wrap64 (t + x_total x)) xs 0%Z in
+    mkX (if Z.ltb 0 T then wrap64 (T - Z.of_nat (length reps)) else T)
+        (hist_repair itv reps (fold_left hist_add (map x_hist xs) []))
+        (fold_left aggs_merge (map x_aggs xs) (repeat ([], 0%Z) naggs))
+        (fold_left (fun n x => n + x_errs x) xs 0).
+
+  Definition finish (t : tier_res) (off size : nat) (rev : bool) (itv : N) (naggs : nat) : sres :=
     match t with
-    | TOk p qs => SOk p (paginate (merge_qprs qs (off + size) rev) off size)
+    | TOk p qs xs => SOk p (paginate (merge_qprs qs (off + size) rev) off size) (merge_rest qs xs rev itv naggs)
     | TWantsOld => SErr EWantsOld
     | TTooManyFrac => SErr ETooManyFrac
     | TFail => SErr EOther
     end.
 
   (* Ingestor.Search up to (not including) the fetch *)
-  Definition search (p1 p2 : bool) (hot hotread cold : list shard) (off size : nat) (rev : bool) : sres :=
+  Definition search (p1 p2 : bool) (hot hotread cold : list shard) (off size : nat) (rev : bool)
+             (itv : N) (naggs : nat) : sres :=
     let h := match hotread with [] => hot | _ => hotread end in
     match search_stores p1 h with
     | TWantsOld =>
         match cold with
         | [] => SErr EWantsOld
-        | _ => finish (search_stores p2 cold) off size rev
+        | _ => finish (search_stores p2 cold) off size rev itv naggs
         end
-    | t => finish t off size rev
+    | t => finish t off size rev itv naggs
     end.
 
   (* ... and the fetch start: every Fetch call failing turns the whole search into an error.
      [ffail] = sources whose Fetch call returns an error. *)
   Definition search_full (p1 p2 : bool) (hot hotread cold : list shard) (off size : nat) (rev : bool)
-             (ffail : list src) : sres :=
-    match search p1 p2 hot hotread cold off size rev with
-    | SOk p (x :: l) =>
-        if forallb (fun k => existsb (Nat.eqb (snd k)) ffail) (x :: l) then SErr EFetch else SOk p (x :: l)
+             (itv : N) (naggs : nat) (ffail : list src) : sres :=
+    match search p1 p2 hot hotread cold off size rev itv naggs with
+    | SOk p (x :: l) r =>
+        if forallb (fun k => existsb (Nat.eqb (snd k)) ffail) (x :: l) then SErr EFetch else SOk p (x :: l) r
     | r => r
     end.
 End WithSort.
+
+(* ------------------------------------------------------------------ proxyapi: outcome -> API answer *)
+(* doSearch + Search/ComplexSearch after the request validation (size > 0 etc.):
+   parseProxyError (too many fractions -> response carrying only that error),
+   ErrPartialResponse -> the response with code PARTIAL_RESPONSE and partial_response = true
+   (store soft errors are NOT looked at in this case),
+   processSearchErrors (no error but some store reported a soft error -> gRPC Internal, the data is
+   dropped; wants-old -> InvalidArgument; anything else -> Internal). *)
+Inductive grpc_code := GInvalidArgument | GInternal.
+Inductive ecode := CNo | CPartial.
+Inductive api :=
+| AErr (c : grpc_code)                 (* the handler returns a gRPC error *)
+| AOnlyError                           (* response with error.code = TOO_MANY_FRACTIONS_HIT, nothing else *)
+| AResp (partial_response : bool) (code : ecode) (l : list ids) (r : extra).
+
+Definition api_of (r : sres) : api :=
+  match r with
+  | SErr ETooManyFrac => AOnlyError
+  | SErr EWantsOld => AErr GInvalidArgument
+  | SErr EOther | SErr EFetch => AErr GInternal
+  | SOk true l x => AResp true CPartial l x
+  | SOk false l x => if Nat.eqb (x_errs x) 0 then AResp false CNo l x else AErr GInternal
+  end.
 
 (* executable stand-in for sort.Sort: insertion sort (stable; the real one is not — the theorems
    hold for every sorting function, and the correspondence compares sources only for validity) *)
@@ -218,6 +333,29 @@ Fixpoint align (lt : ids -> ids -> bool) (req : list ids) (M : list doc) : list 
    [streams]: the streams of the sources whose Fetch call succeeded, in call order. *)
 Definition fetch (req : list ids) (streams : list (src * list sdoc)) : list doc :=
   align (less req) req (nmerge (less req) (map attach streams)).
+
+(* ------------------------------------------------------------------ Documents (fetch by ID) *)
+(* expandIDsBySources: every requested ID once per source; the order of the sources inside one ID's
+   group is a map iteration order, so it is part of the input: groups = [(id, sources in that order)] *)
+Definition expand (groups : list (id * list src)) : list ids :=
+  flat_map (fun g => map (fun s => (fst g, s)) (snd g)) groups.
+
+(* uniqueIDIterator: one document per run of consecutive documents with the same ID: the last
+   non-empty one of the run, or the run's first document when all are empty *)
+Definition is_empty (d : doc) : bool := N.eqb (snd d) 0.
+Fixpoint uniq_go (prev found : doc) (l : list doc) : list doc :=
+  match l with
+  | [] => [found]
+  | d :: r =>
+      if id_eqb (fst (fst d)) (fst (fst prev)) then uniq_go d (if is_empty d then found else d) r
+      else found :: uniq_go d d r
+  end.
+Definition uniq (l : list doc) : list doc :=
+  match l with [] => [] | d :: r => uniq_go d d r end.
+
+(* Ingestor.Documents read to the end *)
+Definition documents (groups : list (id * list src)) (streams : list (src * list sdoc)) : list doc :=
+  uniq (fetch (expand groups) streams).
 
 (* ------------------------------------------------------------------ the code before 2959d55 *)
 (* lessFuncPosBased_v0: panics (None) when both are unknown; the requested IDs were looked up
